@@ -96,7 +96,8 @@ CHECKS = {
     text="C05_check_complete, C05_check_after_history, C05_detects_list_file, C05_detects_shard_file, C05_root_checksum. Faults (bit flips, truncation, extension, deletion, sibling swap, "
          "roll-back to an older committed version, description flip with expected checksums, in-place flip with size and mtime preserved) are planted on every sampled reachable file of "
          "committed flat and nested datasets with 1..13 algorithms; the real check must raise for each and pass on the untouched dataset."
-         ' C05Src.lean re-checks, on the statement order extracted from the current source on every run, that _check_shard_list_info hashes and compares (!=, raise) before it parses and recurses, and that check() verifies description, lists, shards in that order with a raise after each inequality.',
+         ' C05Src.lean re-checks, on the statement order extracted from the current source on every run, that _check_shard_list_info hashes and compares (!=, raise) before it parses and recurses, and that check() verifies description, lists, shards in that order with a raise after each inequality.'
+         ' C05_merge_restores_exactness: one merge re-establishes exactness of the whole split from any well-formed store (held-back infos, crashed sessions); oracles for held-back infos and for a handle whose previous check failed.',
     note="Hash functions are external; detection is stated for modifications whose new digest differs from the recorded one (checked by the harness for every planted fault).",
     ref="DESIGN.md §5 C05"),
  "C06": dict(
@@ -104,7 +105,8 @@ CHECKS = {
     text="C06_invariant, C06_reachable_complete, C06_committed_kept, C06_children_first, C06_closed_stays, C06_every_prefix_is_a_state, C06_partial_writes_invisible. Real sessions (first/continued, root/sub/nested, "
          "multi-writer) run under an audit hook; the directory is snapshotted before every open/rename/mkdir/remove, after every rename and after every write_example; every snapshot (and torn variants) is reopened: "
          "metadata parse, reachable shards complete and matching checksums, committed examples present, only whole written examples."
-         " Code-shaped crash model (SedpackModel/TreeCrash.lean, SedpackProofs/TreeCrash.lean, SedpackProps/C06Tree.lean): sessionE is M-TREE's session emitting every list document it installs in program order; C06_effects_refine_session (same dataset, installs reproduce the store), C06_session_installs_valid (children first, every document well formed, documents only grow - M-CRASH's install guards derived rather than observed), C06_session_crash_points / C06_history_crash_points (after ANY prefix of the installs of a session continuing ANY history: no dangling record, every committed shard still enumerated in list order, nothing enumerated that was not committed or closed by the session). Second correspondence: the documents and the order the real session renames into place = sessionE's installs, and the reader's enumeration of every after-rename snapshot = the model's crash state. C06Src.lean re-checks the effect order (write-then-rename, close-then-hash-then-list, children before parent, lists before description) against the statement order extracted from the current source on every run.",
+         " Code-shaped crash model (SedpackModel/TreeCrash.lean, SedpackProofs/TreeCrash.lean, SedpackProps/C06Tree.lean): sessionE is M-TREE's session emitting every list document it installs in program order; C06_effects_refine_session (same dataset, installs reproduce the store), C06_session_installs_valid (children first, every document well formed, documents only grow - M-CRASH's install guards derived rather than observed), C06_session_crash_points / C06_history_crash_points (after ANY prefix of the installs of a session continuing ANY history: no dangling record, every committed shard still enumerated in list order, nothing enumerated that was not committed or closed by the session). Second correspondence: the documents and the order the real session renames into place = sessionE's installs, and the reader's enumeration of every after-rename snapshot = the model's crash state. C06Src.lean re-checks the effect order (write-then-rename, close-then-hash-then-list, children before parent, lists before description) against the statement order extracted from the current source on every run."
+         ' C06_multiwriter_crash_points / C06_concurrent_writers_crash_points (any number of fillers; worker processes under ANY schedule of their effects), C06_code_shaped_trace_accepted_by_M_CRASH and C06_description_install_accepted (the code-shaped model refines M-CRASH), C06_next_session_heals / C06_crash_then_session_heals (from any crash state, every split a later completed session touches is exact again; sampled on real crash snapshots: heal session + check()). Further oracles: writer dying of ENOSPC on its k-th metadata temp file; a long-lived writer process and a second process taking turns.',
     note="Atomic rename, 'a process crash loses no completed write', fresh uuid names are assumptions; TensorFlow's native writes are observed via results; concurrent reader = a crash state.",
     ref="DESIGN.md §5 C06, Appendix A.4"),
  "C09": dict(
